@@ -96,7 +96,35 @@ def vopy_frame_sig(exc: BaseException) -> Optional[str]:
     return hit
 
 
+class CaseTimeout(BaseException):
+    pass
+
+
+def _alarm(signum, frame):
+    raise CaseTimeout()
+
+
 def run_check(comp: Component, case) -> Result:
+    """run_check_inner under a generous per-case watchdog: a case that does not come back (e.g. an optimiser spinning
+    under a changed tree) is counted 'skip:case-timeout' - a time limit is never a violation."""
+    import signal
+    import threading
+
+    limit = int(os.environ.get("VERIF_CASE_TIMEOUT_S", "300"))
+    if limit <= 0 or threading.current_thread() is not threading.main_thread() or not hasattr(signal, "SIGALRM"):
+        return run_check_inner(comp, case)
+    old = signal.signal(signal.SIGALRM, _alarm)
+    signal.alarm(limit)
+    try:
+        return run_check_inner(comp, case)
+    except CaseTimeout:
+        return Result.skip(["case-timeout"])
+    finally:
+        signal.alarm(0)
+        signal.signal(signal.SIGALRM, old)
+
+
+def run_check_inner(comp: Component, case) -> Result:
     """Run a component's oracle on one case, classifying exceptions.
 
     An exception whose traceback passes through vopy code is a violation of the property under
